@@ -229,3 +229,29 @@ func VerifAddTracks(tracks [][2]string) (names []string, master string) {
 	}
 	return append([]string(nil), ch.trIDs...), ch.masterTrName
 }
+
+// VerifNewRouterInspect is VerifNewRouter without Recoverer plus a function that reports the registered tracks and
+// the master track of a channel.
+func VerifNewRouterInspect(ctx context.Context, storage string, tsbdS uint64) (http.Handler, func(chName string) (tracks []string, master string), error) {
+	opts := &Options{prefix: defaultPrefix, storage: storage, timeShiftBufferDepthS: tsbdS}
+	r, err := NewReceiver(ctx, opts, GetEmptyConfig())
+	if err != nil {
+		return nil, nil, err
+	}
+	mux := http.NewServeMux()
+	mux.HandleFunc(r.prefix+"/", r.SegmentHandlerFunc)
+	inspect := func(chName string) ([]string, string) {
+		ch, ok := r.channelMgr.GetChannel(chName)
+		if !ok {
+			return nil, ""
+		}
+		ch.mu.RLock()
+		defer ch.mu.RUnlock()
+		var tracks []string
+		for _, id := range ch.trIDs {
+			tracks = append(tracks, id+":"+ch.trDatas[id].contentType)
+		}
+		return tracks, ch.masterTrName
+	}
+	return mux, inspect, nil
+}
